@@ -381,6 +381,23 @@ OVVectors(n) ==
                   : mode \in {"plain", "auth", "crypt", "crypt2"} } : net \in {"tcp", "udp"} }
 
 (***************************************************************************)
+(* QUIC (RFC 9000 17.2, RFC 9001): a datagram matches if it is an Initial  *)
+(* packet (long header, fixed bit set, 1200..1451 bytes) carrying a TLS    *)
+(* ClientHello whose server name / ALPN satisfy the configured             *)
+(* tls.handshake_match matchers; UDP only.  "initial" is produced by a     *)
+(* real QUIC client; the other kinds are datagrams that must not match:    *)
+(* long header with arbitrary payload, short header, fixed bit clear,      *)
+(* too small (1199), larger than any QUIC datagram the server reads (1460),*)
+(* and a real Initial offered over TCP.                                    *)
+(***************************************************************************)
+QMsgs == [kind : {"initial", "garbage_long", "short_header", "nofixedbit", "small_long", "big_long", "tcp_initial"}, sni : {"a.example.com", "b.example.com"}, alpn : {"h3", "other"}]
+QCfgs == [sni : {<<>>, <<"a.example.com">>}, alpn : {<<>>, <<"h3">>}]
+QRef(m, cfg) == IF /\ m.kind = "initial"
+                   /\ (cfg.sni = <<>> \/ m.sni \in Range(cfg.sni))
+                   /\ (cfg.alpn = <<>> \/ m.alpn \in Range(cfg.alpn))
+                THEN "Y" ELSE "N"
+
+(***************************************************************************)
 (* The vectors and their reference verdicts                                *)
 (***************************************************************************)
 Vec(p, n, c, m, t) == [proto |-> p, net |-> n, cfg |-> c, msg |-> m, trail |-> t]
@@ -404,6 +421,8 @@ Vectors(p) ==
                          \cup { Vec(p, "tcp", c, m, 0) : m \in HTTP2Msgs, c \in HTTPCfgs }
     [] p = "winbox"   -> { Vec(p, "tcp", c, m, t) : m \in WBMsgs, c \in WBCfgs, t \in {0} }
     [] p = "tls"      -> { Vec(p, "tcp", c, m, t) : m \in TLSMsgs, c \in TLSCfgs, t \in {0, 9} }
+    [] p = "quic"     -> { Vec(p, IF m.kind = "tcp_initial" THEN "tcp" ELSE "udp", c, m, 0) :
+                               m \in { x \in QMsgs : x.kind = "initial" \/ (x.sni = "a.example.com" /\ x.alpn = "h3") }, c \in QCfgs }
     [] p = "openvpn"  -> OVVectors(IF Tier = "quick" THEN 1 ELSE 2)
     [] OTHER -> {}
 
@@ -423,11 +442,12 @@ Ref(v) ==
     [] v.proto = "http" -> HTTPRef(v.msg, v.cfg)
     [] v.proto = "tls" -> TLSRef(v.msg, v.cfg)
     [] v.proto = "winbox" -> WBRef(v.msg, v.cfg)
+    [] v.proto = "quic" -> QRef(v.msg, v.cfg)
     [] v.proto = "openvpn" -> OVRef(v.msg, v.cfg, v.net)
     [] OTHER -> "?"
 
 \* stream protocols: the verdict-over-prefixes rules of C06 apply
-IsStream(v) == v.net = "tcp" /\ v.proto \notin {"clock", "ip"}
+IsStream(v) == v.net = "tcp" /\ v.proto \notin {"clock", "ip", "quic"}
 
 (***************************************************************************)
 (* Judging one observation o of the real matcher on vector v:              *)
